@@ -61,7 +61,14 @@ def prog3(row, dnf):
 
 
 def frame_to_rows(df):
-    return FL.frame_rows(df)
+    return FL.frame_rows(flat(df))
+
+
+def flat(df):
+    """a written index column comes back as the index: look at it as a column again"""
+    if df.index.name is not None:
+        return df.reset_index()
+    return df
 
 
 def check_rows(got_rows, full_rows, cols):
@@ -88,7 +95,7 @@ def run_dataset(job):
         try:
             path = FL.write_dataset(spec, tmp)
             pf = ParquetFile(path)
-            full = pf.to_pandas()
+            full = flat(pf.to_pandas())
         except Exception as e:    # noqa
             out["error"] = "%s: %s" % (type(e).__name__, e)
             return out
@@ -124,7 +131,7 @@ def run_dataset(job):
             o["free"] = [r["rid"] for r, w in zip(rows, want) if w is None]
             try:
                 pf2 = ParquetFile(path)
-                got = pf2.to_pandas(filters=filters, row_filter=True, columns=None if cols is None else list(cols))
+                got = flat(pf2.to_pandas(filters=filters, row_filter=True, columns=None if cols is None else list(cols)))
                 grow = frame_to_rows(got)
                 o["got"] = [int(r["rid"]) for r in grow] if "rid" in got.columns else None
                 o["ncols"] = len(got.columns)
@@ -146,13 +153,40 @@ def run_dataset(job):
                 except Exception as e:      # noqa
                     o["model_skip"] = "glue raised %s: %s" % (type(e).__name__, str(e)[:100])
             out["progs"].append(o)
+        # ---------------- a caller mask together with filters: the mask runs over the rows of the kept row groups
+        out["fm"] = []
+        from fastparquet import api
+        for (prog, cols), o in list(zip(progs, out["progs"]))[:4]:
+            if "raised" in o:
+                continue
+            filters = FL.prog_to_filters(prog)
+            try:
+                pf2 = ParquetFile(path)
+                kept = [int(i) for i in api.filter_row_groups(pf2, filters, as_idx=True)]
+                starts = [sum(out["sizes"][:i]) for i in range(len(out["sizes"]))]
+                krows = [r for i in kept for r in rows[starts[i]:starts[i] + out["sizes"][i]]]
+                m = [(j * 7 + len(krows)) % 3 != 0 for j in range(len(krows))]
+                fo = {"prog": prog, "kept": kept, "mask": m}
+                if krows:
+                    got = flat(pf2.to_pandas(filters=filters, row_filter=np.array(m, dtype=bool)))
+                    want_rows = [r for r, b in zip(krows, m) if b]
+                    grow = frame_to_rows(got)
+                    bad = None
+                    if [g["rid"] for g in grow] != [w["rid"] for w in want_rows]:
+                        bad = "returned rids %s, the mask over the kept row groups selects %s" % ([g["rid"] for g in grow], [w["rid"] for w in want_rows])
+                    else:
+                        bad = check_rows(grow, rows, list(got.columns))
+                    fo["bad"] = bad
+                    out["fm"].append(fo)
+            except Exception as e:     # noqa
+                out["fm"].append({"prog": prog, "raised": type(e).__name__, "raised_msg": str(e)[:200]})
         # ---------------- caller-supplied masks
         for mask, cols in masks:
             o = {}
             m = np.array(mask, dtype=bool)
             try:
                 pf2 = ParquetFile(path)
-                got = pf2.to_pandas(row_filter=m, columns=None if cols is None else list(cols))
+                got = flat(pf2.to_pandas(row_filter=m, columns=None if cols is None else list(cols)))
                 grow = frame_to_rows(got)
                 want_rows = [r for r, b in zip(rows, mask) if b]
                 bad = None
@@ -260,6 +294,10 @@ def gen_job(rng, v2=False, want_model=True, nprog=20, nmask=6):
         # categorical statistics are C04's open defect: keep them out of the pruning
         spec["stats"] = [c for c in spec["cols"] if c != "c" and c not in spec["partition_on"]] if spec["stats"] is not False else False
     spec["page_size"] = rng.choice([None, 16, 24, 40, 64])
+    spec["compression"] = rng.choice([None, None, "SNAPPY", "GZIP", "ZSTD"])
+    cand = [c for c in spec["cols"] if c != "rid" and c not in spec["partition_on"] and spec["cols"][c]["kind"] in ("int", "str", "ts")
+            and all(v is not None for v in spec["cols"][c]["values"])]
+    spec["index"] = rng.choice(cand) if (cand and rng.random() < 0.2) else None
     spec["v2"] = v2
     offs = spec["offsets"] + [spec["n"]]
     ch = {name: [c["values"][offs[i]:offs[i + 1]] for i in range(len(offs) - 1)] for name, c in spec["cols"].items()}
@@ -334,9 +372,9 @@ def run(ctx):
     warnings.filterwarnings("ignore")
     rng = ctx.rng
     ctx.rule = ("datasets of C05 with row groups of 1-12 rows, chunks split into several data pages (MAX_PAGE_SIZE 8-40 bytes), NULLs/NaN, categoricals, "
-                "partitions, v1 and v2 data pages; programs of C05 with row_filter=True, output columns all / rid only / "
+                "partitions, v1 and v2 data pages, compression none/SNAPPY/GZIP/ZSTD, a written index column in 20%; programs of C05 with row_filter=True, output columns all / rid only / "
                 "subsets with or without the filter columns; caller masks: random densities, first/last k rows off, alternating, single row, "
-                "block, all, none. trivial = wrong-typed constant (read raises), or nothing selected and nothing returned; "
+                "block, all, none; a mask over the rows of the kept row groups together with filters. trivial = wrong-typed constant (read raises), or nothing selected and nothing returned; "
                 "distinct = distinct (dataset, program|mask, columns)")
     n_ds = 90 if quick else 700
     jobs = []
@@ -408,6 +446,15 @@ def run(ctx):
                 mmeta.append((case, got, o["count"]))
             elif "model_skip" in o:
                 ctx.count("model.skipped", o["model_skip"][:40])
+        for fo in res.get("fm", []):
+            case = {"spec": spec, "prog": fo["prog"], "kept_mask": fo.get("mask")}
+            ctx.case({"fm": case}, trivial=False)
+            ctx.count("filters+mask", "raised" if "raised" in fo else ("bad" if fo.get("bad") else "ok"))
+            if "raised" in fo:
+                if not has_wrong_type(spec, fo["prog"]):
+                    ctx.fail(classify(spec, fo["prog"], "filters+mask raised:" + fo["raised"], None), case, "to_pandas(filters, row_filter=mask) raised %s: %s" % (fo["raised"], fo["raised_msg"]))
+            elif fo.get("bad"):
+                ctx.fail(classify(spec, fo["prog"], "filters+mask wrong-rows", None), case, fo["bad"])
         for (mask, cols), o in zip(masks, res["masks"]):
             case = {"spec": spec, "mask": mask, "columns": cols}
             ctx.count("mask.density", "0" if not any(mask) else ("1" if all(mask) else "partial"))
@@ -478,6 +525,14 @@ def replay(rep):
         print("dataset could not be written/read:", res["error"])
         return 1
     print("row-group sizes:", res["sizes"], "max data pages per chunk:", res["max_pages"], "v2" if spec.get("v2") else "v1")
+    if "kept_mask" in case:
+        fo = (res.get("fm") or [{}])[0]
+        print("filters:", FL.prog_to_filters(case["prog"]), "kept row groups:", fo.get("kept"), "mask over their rows:", fo.get("mask"))
+        if "raised" in fo:
+            print("PROPERTY FAILS: raised", fo["raised"], fo["raised_msg"])
+            return 1
+        print("PROPERTY FAILS: " + fo["bad"] if fo.get("bad") else "property holds on this case")
+        return 1 if fo.get("bad") else 0
     if "prog" in case:
         o = res["progs"][0]
         print("filters:", FL.prog_to_filters(case["prog"]), "columns:", case.get("columns"))
